@@ -39,9 +39,10 @@ def dec(s):
     return "".join(chr(int(t)) for t in s.split("."))
 
 
-def gen_cmd(rng, cid, nmax):
+def gen_cmd(rng, cid, nmax, blanks=False):
     n = rng.choice([0, 1, 2, 3, 5, 8, nmax])
-    items = ["%s-%d.%d" % (rng.choice(WORDS), cid, i) for i in range(n)]
+    # `~` = a blank line (see harness/src/session.rs SItem): it matches inverse terms and the empty query only
+    items = ["%s-%d.%d" % (rng.choice(WORDS) if not blanks or rng.random() > 0.2 else "~", cid, i) for i in range(n)]
     # chunking in time
     chunks, i = [], 0
     k = rng.choice([1, 1, 2, 3, 4])
@@ -53,10 +54,25 @@ def gen_cmd(rng, cid, nmax):
 
 
 def gen_session(rng, kind):
-    """kind: 'c01' (queries/modes/commands), 'c14' (select-1/exit-0), 'c10' (selection actions)"""
+    """kind: 'c01' (queries/modes/commands), 'c14' (select-1/exit-0), 'c10' (selection actions), 'c20' (preview pane)"""
+    if kind == "c05" and rng.random() < 0.08:
+        # directed: selected items that the current query hides stay selected through toggle-all / select-all and are returned
+        n = rng.choice([3, 5, 8])
+        items = ",".join(enc("%s-0.%d" % (rng.choice(WORDS), i)) for i in range(n))
+        evs = ["idle", rng.choice(["selall", "toggle up:1 toggle", "toggle"]), "add:%d" % ord(rng.choice(ALPHA)), "idle",
+               rng.choice(["togall", "togall", "selall", "toggle"]), rng.choice(["idle", "bs idle", ""]), "accept"]
+        return "S|multi|c0=0@%s|%s|-|x" % (items, " ".join(e for e in evs if e))
+    if kind == "c20" and rng.random() < 0.3:
+        # directed: --no-clear-if-empty, the command is changed to one that prints nothing (the old list stays, its clear stays
+        # pending for good), the session settles, and only then the cursor moves in the kept list
+        n = rng.choice([3, 5, 8])
+        items = ",".join(enc("%s-0.%d" % (rng.choice(WORDS), i)) for i in range(n))
+        cmds = ["c0=0@" + items] + ["%s=0@" % c for c in CMDS[1:]]
+        evs = ["idle", "add:%d" % ord(rng.choice("12")), "idle"] + [rng.choice(["up:1", "up:2", "down:1", "up:1"]) + " idle" for _ in range(rng.randint(1, 4))]
+        return "S|interactive,nce,pv%s|%s|%s|-|x" % (rng.choice(["", ",multi"]), ";".join(cmds), " ".join(evs))
     opts = []
     # interactive sessions re-run commands: the run number of an item changes, and comes back when a command text comes back
-    interactive = (kind == "c01" and rng.random() < 0.35) or (kind in ("c10", "c05") and rng.random() < 0.25)
+    interactive = (kind == "c01" and rng.random() < 0.35) or (kind in ("c10", "c05") and rng.random() < 0.25) or (kind == "c20" and rng.random() < 0.6)
     if interactive:
         opts.append("interactive")
     if kind in ("c10", "c05") or rng.random() < 0.3:
@@ -76,16 +92,21 @@ def gen_session(rng, kind):
         opts.append("hist=" + "+".join(enc(rng.choice(WORDS[:9])) for _ in range(rng.randint(1, 3))))
         if interactive:
             opts.append("chist=" + "+".join(enc(rng.choice(["0", "1", "2", "01", "02"])) for _ in range(rng.randint(1, 3))))
+    if (kind != "c14" and rng.random() < 0.12) or kind == "c20":
+        opts.append("pv")            # a preview pane: the last preview request must be for the item under the cursor
+    if interactive and rng.random() < (0.6 if kind == "c20" else 0.25):
+        opts.append("nce")           # --no-clear-if-empty: a command that prints nothing leaves the old list (and a pending clear)
     if kind == "c14":
         opts.append(rng.choice(["select1", "exit0", "select1,exit0"]))
     cmds = []
+    blanks = kind == "c01" and rng.random() < 0.3       # blank lines in the source + inverse terms in the query
     names = CMDS if interactive else ["c0"]
     for cid, name in enumerate(names):
         if kind == "c14":
             # aim at 0 / 1 / 2 matches, arriving early or late
             spec, n = gen_cmd(rng, cid, rng.choice([1, 2, 4, 12]))
         else:
-            spec, n = gen_cmd(rng, cid, rng.choice([12, 30, 120]))
+            spec, n = gen_cmd(rng, cid, rng.choice([12, 30, 120]), blanks)
         cmds.append("%s=%s" % (name, spec))
     evs = []
     if kind == "c14":
@@ -99,10 +120,14 @@ def gen_session(rng, kind):
         nev = rng.choice([1, 3, 6, 12])
     for _ in range(nev):
         r = rng.random()
-        if kind in ("c10", "c05") and r < 0.45:
+        if kind == "c20" and r < 0.45:
+            evs.append(rng.choice(["up:1", "up:1", "down:1", "up:2", "idle", "toggle"]))
+        elif kind in ("c10", "c05") and r < 0.45:
             evs.append(rng.choice(["toggle", "toggle", "toggle", "selall", "togall", "desel", "up:1", "up:2", "down:1", "up:5"]))
         elif r < 0.55:
-            if kind in ("c05", "c01") and rng.random() < 0.15:
+            if blanks and rng.random() < 0.4:
+                evs.append(rng.choice(["add:33", "add:32 add:33", "add:33 add:%d" % ord(rng.choice(ALPHA))]))   # `!`: inverse terms
+            elif kind in ("c05", "c01") and rng.random() < 0.15:
                 evs.append("add:32")          # a blank: the query must be reported exactly as edited, blanks included
             else:
                 evs.append("add:%d" % ord(rng.choice(ALPHA if not interactive or rng.random() < 0.5 else "012")))
@@ -141,6 +166,8 @@ RACE_RULES = [
     # matcher thread is slow to take
     "at=mt.before_take;sleep;timeout=30",
     "at=mt.before_stop;sleep;timeout=40",
+    # ... and slow enough to outlive the 100 ms heart-beat timer: the beats in between must keep a wake-up pending
+    "at=mt.before_stop;sleep;timeout=260",
     "at=rd.before_end;sleep;timeout=60",
 ]
 
@@ -240,14 +267,14 @@ def _post(case, impl):
         return None
 
     def snap_tok(l):
-        mm = re.match(r"loop\.end list=(\S*) sel=(\S*) nopt=(\d+) mc=(\w+) clear=(\w+) cur=(\d+) run=(\d+) pool=(\d+)/(\d+) rdone=(\w+) re=(\w+) dq=(\w*)\. dcmd=(\w*)\. cq=\"(.*)\" q=\"(.*)\"$", l)
+        mm = re.match(r"loop\.end list=(\S*) sel=(\S*) nopt=(\d+) mc=(\w+) clear=(\w+) cur=(\d+) run=(\d+) pool=(\d+)/(\d+) rdone=(\w+) re=(\w+) pv=(\S+) dq=(\w*)\. dcmd=(\w*)\. cq=\"(.*)\" q=\"(.*)\"$", l)
         lst = [int(x) for x in mm.group(1).split(",") if x]
         sel = mm.group(2) or "_"
         mc = mm.group(4) == "true"
         clear = {"DontClear": "D", "Clear": "C", "ClearIfNotNull": "N"}[mm.group(5)]
         quiet = (mm.group(10) == "true") and (not mc) and mm.group(8) == mm.group(9)
-        info = dict(list=lst, cur=int(mm.group(6)), run=int(mm.group(7)), q=mm.group(15), cq=mm.group(14), re=mm.group(11) == "true",
-                    dq=bytes.fromhex(mm.group(12)).decode("utf-8", "replace"), dcmd=bytes.fromhex(mm.group(13)).decode("utf-8", "replace"))
+        info = dict(list=lst, cur=int(mm.group(6)), run=int(mm.group(7)), q=mm.group(16), cq=mm.group(15), re=mm.group(11) == "true", pv=mm.group(12),
+                    dq=bytes.fromhex(mm.group(13)).decode("utf-8", "replace"), dcmd=bytes.fromhex(mm.group(14)).decode("utf-8", "replace"))
         return "SNAP %s %s %d %s %d" % (",".join(str(x) for x in sorted(lst)) or "_", sel, int(mc), clear, int(quiet)), info
 
     pos = 0
@@ -320,7 +347,11 @@ def _post(case, impl):
                 if mm:
                     toks.append("Mic %d" % (mm.group(1) == "true"))
                     continue
-                if l.startswith("r.take ") or l.startswith("restart done=") or l in ("hb.arm", "hb.idle"):
+                if l in ("hb.arm", "hb.idle"):
+                    toks.append("Mfin")
+                    toks.append("Marm %d" % (l == "hb.arm"))     # did the real code leave a timer wake-up behind
+                    continue
+                if l.startswith("r.take ") or l.startswith("restart done="):
                     # restart_matcher is atomic at its take (under the buffer lock), or — when it finds the reader done and takes
                     # nothing — at that reading; the token is a no-op once the step has been made
                     toks.append("Mfin")
@@ -343,6 +374,8 @@ def _post(case, impl):
                 toks.append("CUR %s" % (info["list"][info["cur"]] if info["cur"] < len(info["list"]) else "x"))
                 dkey = "%s/%d" % (enc(info["dq"]), int(info["re"]))
                 toks.append("DQ %d %d" % (qids.get(dkey, 999), cid_of.get(info["dcmd"], 99)))
+                if info["pv"] != "-":
+                    toks.append("PV %d %s" % (info["pv"] == "true", snap.rsplit(" ", 1)[1]))
             pos = e + 1 if end is not None else e
             continue
         if ev.startswith("EvActAccept") or ev == "EvActAbort":
@@ -426,6 +459,8 @@ def _post(case, impl):
             # what the query line shows at the end of the iteration: (query, mode) key and command of the DISPLAYED text
             dkey = "%s/%d" % (enc(info["dq"]), int(info["re"]))
             toks.append("DQ %d %d" % (qids.get(dkey, 999), cid_of.get(info["dcmd"], 99)))
+            if info["pv"] != "-":
+                toks.append("PV %d %s" % (info["pv"] == "true", snap.rsplit(" ", 1)[1]))
         pos = e + 1 if end is not None else e
     for l in trace[pos:]:
         t = foreign(l)
